@@ -24,6 +24,7 @@ TABLES = {
     'Leaf': [('n', 'long', 0), ('s', 'string', None), ('c', 'Color', 2)],
     'Other': [('v', ('vec', 'ushort'), None), ('f', 'float', 1.5)],
     'Rec': [('r', 'Rec', None), ('n', 'int', 0), ('k', ('vec', 'Rec'), None)],
+    'Node': [('name', 'string', None), ('kids', ('uvec', 'Tree'), None), ('single', ('union', 'Tree'), None), ('n', 'int', 0)],
     'Sub': [('id', 'uint', 0), ('tag', 'string', None), ('pt', 'Pt', None)],
     'Root': [('b', 'bool', False), ('i8', 'byte', -3), ('u8', 'ubyte', 0), ('i16', 'short', 0), ('u16', 'ushort', 500),
              ('i32', 'int', 0), ('u32', 'uint', 0), ('i64', 'long', 0), ('u64', 'ulong', 0), ('f32', 'float', 0.0),
@@ -36,8 +37,9 @@ TABLES = {
              ('other', 'Other', None), ('any2', ('union', 'Any'), None), ('vfix', ('vec', 'Fix'), None)],
 }
 REQUIRED = {('Sub', 'tag')}
-UNIONS = {'Any': [('Leaf', 'Leaf'), ('Other', 'Other'), ('Pt', 'Pt'), ('Str', 'string')]}   # code = index + 1
-ROOTS = ['Root', 'Leaf', 'Other', 'Sub', 'Rec', 'Pt', 'Fix']
+UNIONS = {'Any': [('Leaf', 'Leaf'), ('Other', 'Other'), ('Pt', 'Pt'), ('Str', 'string')],
+          'Tree': [('Node', 'Node'), ('Leaf', 'Leaf'), ('Other', 'Other')]}   # code = index + 1
+ROOTS = ['Root', 'Leaf', 'Other', 'Sub', 'Rec', 'Node', 'Pt', 'Fix']
 
 BOUNDARY_INTS = lambda lo, hi: [lo, hi, 0, 1, -1 if lo < 0 else 1, lo + 1, hi - 1, 127, 128, 255, 256, 65535, 65536]
 
